@@ -670,6 +670,11 @@ pub fn rand_common(ctx: &mut Ctx, allow_npf: bool) -> Common {
     } else if r < 84 {
         // a user-supplied list with other names than the default ones (no "<unk>" in it)
         tokens = vec!["<pad>".into(), "<s>".into(), "</s>".into(), "<mask>".into()];
+    } else if r < 92 {
+        // special tokens that are a single character (Latin-1, other two- and three-byte characters, an emoji): as a
+        // string they are one code point, as bytes several
+        tokens.push(["\u{a7}", "\u{e9}", "\u{ff}", "\u{80}"][ctx.rng.random_range(0..4)].into());
+        tokens.push(["\u{20ac}", "\u{1F600}", "\u{3a9}", "\u{b6}"][ctx.rng.random_range(0..4)].into());
     }
     let pick = |ctx: &mut Ctx, toks: &Vec<String>| toks[ctx.rng.random_range(0..toks.len())].clone();
     let np = [0, 0, 1, 2, 3][ctx.rng.random_range(0..5)];
@@ -1066,6 +1071,32 @@ pub fn run_bpe(ctx: &mut Ctx, c03: bool) {
             emit_detok(ctx, "bpedetok", &kind, &c, &ids, ign);
         }
     }
+    if !c03 && ctx.first_shard() {
+        // a well-formed table with an entry that is SPELLED like a configured special token (a corpus whose lines
+        // start with "<pad>" trains one), followed by merges with higher ids; the same table under special-token
+        // names that do not occur in it
+        let tb = |l: &[&str]| l.iter().enumerate().map(|(i, s)| (s.as_bytes().to_vec(), i as u32)).collect::<Vec<_>>();
+        for t in [tb(&["<p", "ad", "<pad", "<pad>", "ab", "abc", "ca", "cab"]), tb(&["ab", "<u", "nk", "<unk", "<unk>", "abc", " c", " ca"]), tb(&["<s", "<s>", "bc", "abc"])] {
+            for tokens in [vec!["<unk>", "<bos>", "<eos>", "<pad>"], vec!["<pad>"], vec!["<pad>", "<s>", "</s>"], vec!["[PAD]", "<x>"]] {
+                let tokens: Vec<String> = tokens.iter().map(|x| x.to_string()).collect();
+                let c = Common { pad: tokens.iter().find(|x| x.to_lowercase().contains("pad")).unwrap().clone(), tokens: tokens.clone(), prefix: vec![], suffix: vec![tokens[0].clone()] };
+                for max_vocab in [None, Some(256 + t.len() + tokens.len()), Some(256 + 5 + tokens.len())] {
+                    let kind = Kind::Bpe { table: t.clone(), max_vocab };
+                    for s in ["abc cab", "<pad> abc cab", "x<pad>cab ab", "ab <pad", "<pad>", "<unk> ca abc", "<s> abc", "hello abc <unk>x"] {
+                        for ign in [true, false] {
+                            emit_tok(ctx, "bpetok", &kind, &c, s, ign, false);
+                        }
+                    }
+                    let hi = 256 + t.len() as u64 + tokens.len() as u64 + 2;
+                    let ids: Vec<u64> = (256..hi).collect();
+                    for ign in [true, false] {
+                        emit_detok(ctx, "bpedetok", &kind, &c, &ids, ign);
+                        emit_detok(ctx, "bpedetok", &kind, &c, &[ids[ids.len() / 2], 97, ids[3]], ign);
+                    }
+                }
+            }
+        }
+    }
     if c03 && ctx.thorough && ctx.first_shard() {
         // exhaustive: all words of length ≤ 6 over {a,b,c} for the adversarial tables and 100 random ones
         let words: Vec<String> = gen::all_strings(&['a', 'b', 'c'], 6).into_iter().filter(|w| !w.is_empty()).collect();
@@ -1091,7 +1122,9 @@ pub fn run_bpe(ctx: &mut Ctx, c03: bool) {
 pub fn run_c04(ctx: &mut Ctx) {
     if ctx.first_shard() {
         // every tokenizer kind with special-token lists that do / do not contain the unknown token and the default names
-        let lists: [&[&str]; 6] = [&["<pad>"], &["<pad>", "<s>", "</s>"], &["<unk>", "<pad>"], &["<pad>", "<unk>", "<bos>", "<eos>"], &["<x>", "<pad>"], &["<\u{fb01}n>", "<pad>", "<unk>", "<\u{ff12}>"]];
+        let lists: [&[&str]; 7] = [&["<pad>"], &["<pad>", "<s>", "</s>"], &["<unk>", "<pad>"], &["<pad>", "<unk>", "<bos>", "<eos>"], &["<x>", "<pad>"], &["<\u{fb01}n>", "<pad>", "<unk>", "<\u{ff12}>"],
+            // single-character special tokens (one code point, several bytes)
+            &["\u{a7}", "<pad>", "\u{20ac}", "\u{e9}", "\u{1F600}"]];
         for l in lists {
             let tokens: Vec<String> = l.iter().map(|x| x.to_string()).collect();
             let c = Common { tokens: tokens.clone(), pad: "<pad>".into(), prefix: vec![tokens[0].clone()], suffix: vec![] };
